@@ -125,6 +125,14 @@ func (u *Unit) argShape(e ast.Expr, at ast.Node, depth int) string {
 		return u.argShape(x.X, at, depth) + "." + x.Sel.Name
 	case *ast.CallExpr:
 		if tv, ok := u.Info.Types[x.Fun]; ok && tv.IsType() && len(x.Args) == 1 {
+			// a conversion to a sized integer type fixes a width (encodings, truncation): it is kept; conversions
+			// between named types of the same representation are noise
+			if b, ok := tv.Type.(*types.Basic); ok {
+				switch b.Kind() {
+				case types.Uint8, types.Uint16, types.Uint32, types.Uint64, types.Int8, types.Int16, types.Int32, types.Int64:
+					return types.Typ[b.Kind()].Name() + "(" + u.argShape(x.Args[0], at, depth) + ")"
+				}
+			}
 			return u.argShape(x.Args[0], at, depth)
 		}
 		if hs := u.helperResultShape(x, 0, depth); hs != "" {
